@@ -37,6 +37,25 @@ def _is_validator_result(val: ast.AST) -> bool:
     return isinstance(val, ast.Call) and ast.unparse(val.func).split(".")[-1] in ("_validate_path", "validate_octave_path", "atomic_write_octave")
 
 
+PATH_REWRITERS = {"expanduser", "expandvars", "normpath", "realpath", "abspath"}
+
+
+def check_no_path_rewrite(run: Run) -> None:
+    run.rule("R19.8", "the path that is accessed is the path that was validated: in the tools and the CLI no user-supplied path is passed through expanduser / expandvars / normpath / realpath / abspath (the validator inspects the string as given; a rewritten path can pass through symlinks and suffixes it never saw)", 1)
+    n = 0
+    for short in ("mcp.validate", "mcp.write", "mcp.eject", "mcp.compile_grammar", "cli.main", "core.file_ops"):
+        m = run.project.mod(short)
+        for fi in m.functions.values():
+            for c in walk_no_nested(fi.node):
+                if isinstance(c, ast.Call) and isinstance(c.func, ast.Attribute) and c.func.attr in PATH_REWRITERS:
+                    n += 1
+                    run.instance("R19.8", m.loc(c), f"{fi.qualname}: `{norm(c)[:60]}`", ok=False)
+                    run.violation("R19.8", m, fi.qualname, f"{c.func.attr}() on a path", f"`{norm(c)[:70]}` rewrites a path after (or instead of) validation: the validator sees the spelling the caller sent (where `~` is an ordinary directory name), the file system sees the rewritten one, so a symlink or a disallowed suffix behind the rewrite is never checked")
+    run.instance("R19.8", "src/octave_mcp", f"{n} path-rewriting call(s) in the tools, the CLI and file_ops", ok=n == 0)
+    ctl = ast.parse("Path(p).expanduser()").body[0].value  # type: ignore[attr-defined]
+    run.control("R19.8", "a `.expanduser()` call is recognised", isinstance(ctl, ast.Call) and ctl.func.attr in PATH_REWRITERS)  # type: ignore[attr-defined]
+
+
 def check(run: Run) -> None:
     res = Resolver(run.project)
     run.rule("R19.1", "validation dominates I/O: every filesystem access on a user-supplied path (or an alias of it) executes only after the path validator accepted that path", 20)
@@ -54,6 +73,7 @@ def check(run: Run) -> None:
     _r19_5(run, res)
     _r19_6(run, res)
     _r19_7(run, res)
+    check_no_path_rewrite(run)
 
 
 # ------------------------------------------------------------------ R19.1
